@@ -816,6 +816,11 @@ func DominatingConds(ins ssa.Instruction) []struct {
 
 // ---------- NILDEREF: a (pointer|interface, error) result is dereferenced only where the error is known nil ----------
 
+// NilProducer, when set, marks calls whose pointer result may be nil although no error is reported (pem.Decode's block,
+// generated protobuf getters of message-typed fields): NilDerefGuard then demands the value to be known non-nil at
+// every dereference.
+var NilProducer func(call *ssa.Call) bool
+
 // NilDerefMaxStates bounds the exploration per function in NilDerefGuard (0 = the explorer's default); repository-wide
 // sweeps lower it and report truncated functions as not examined.
 var NilDerefMaxStates = 0
@@ -847,6 +852,19 @@ func (c *Check) NilDerefGuard(rule, constructPrefix string, fns []*ssa.Function,
 						continue
 					}
 					res := call.Call.Signature().Results()
+					// producers documented to return a nil pointer without any error: the value must be known non-nil
+					if NilProducer != nil && NilProducer(call) {
+						var v ssa.Value
+						if res.Len() == 1 {
+							v = call
+						} else {
+							v = ErrResult(call, 0)
+						}
+						if v != nil {
+							cands = append(cands, cand{call, v, nil})
+						}
+						continue
+					}
 					if res.Len() < 2 || !isErrorType(res.At(res.Len()-1).Type()) {
 						continue
 					}
@@ -910,7 +928,7 @@ func (c *Check) NilDerefGuard(rule, constructPrefix string, fns []*ssa.Function,
 						continue
 					}
 					derefs++
-					if !(s.IsNil(cd.errv) || s.NonNil(cd.val)) && bad == nil {
+					if !((cd.errv != nil && s.IsNil(cd.errv)) || s.NonNil(cd.val)) && bad == nil {
 						bad, badAt, badCall = s.clone(), ins, cd.call
 					}
 				}
